@@ -13,4 +13,7 @@ ASSUMPTIONS = oc.ASSUMPTIONS
 
 def queries(ctx):
     qs = [oc.out_query(k, kf=ctx["kf"]) for k in range(9)]
+    # a second call in the same process image (failed exec followed by another exec, vfork, threads) behaves like the first
+    for k in (3, 2, 4):
+        qs.append(oc.out_query(k, kf=ctx["kf"], prefix="twice", extra_defines=("TWICE=1",)))
     return qs
